@@ -110,6 +110,22 @@ func uidFrame(uid uint64, seq byte, sys byte, v1 bool, keyRaw []byte, ts uint64)
 }
 
 // uidOf extracts the unique id of a received message, if it carries one.
+// bigUidFrame is a v2 frame of message 5000 with a 250-byte payload: the uid, then non-zero bytes a receiver of the known
+// definition ignores as unknown trailing (extension) bytes. 262 bytes on the wire.
+func bigUidFrame(uid uint64, seq byte, sys byte) []byte {
+	p := make([]byte, 250)
+	for i := range p {
+		p[i] = byte(1 + i%200)
+	}
+	for i := 0; i < 8; i++ {
+		p[i] = byte(uid >> (8 * uint(i)))
+	}
+	p[8], p[9], p[10], p[11] = 1, 1, 2, 3 // Kind, Pad
+	s := &ref.FrameSpec{Version: 2, Seq: seq, Sys: sys, Comp: 1, MsgID: 5000, Payload: p}
+	ref.Seal(s, uidLayout.CRCExtra, nil)
+	return ref.Serialize(s)
+}
+
 func uidOf(m message.Message) (uint64, bool) {
 	switch x := m.(type) {
 	case *MessageVfUid:
